@@ -151,6 +151,10 @@ def _tz_doc(rng, zone, count):
         if millis and size == 4:
             secs = rng.randrange(0, 2 ** 32 // 1000)     # a 4-byte millisecond field holds 49 days
         cases.append([secs, rng.randrange(1000) if millis else 0, size, millis, form])
+    # instants outside 1970..2106: a 4-byte field must refuse them, an 8-byte field holds the later ones exactly
+    for _ in range(3):
+        secs = rng.choice((-1, -86400, -2 ** 31, 2 ** 32, 2 ** 32 + 5, 2 ** 33 + 12345, 253402300799))
+        cases.append([secs, 0, rng.choice((4, 8)), False, rng.choice(('aware_utc', 'naive_utc')), 'outside'])
     return {'kind': 'tz', 'tz': zone, 'cases': cases}
 
 
@@ -229,7 +233,9 @@ def _exec_tz(doc, res):
     near = False
     forms = set()
     local_offset = -time.timezone
-    for secs, millis, size, use_ms, form in doc['cases']:
+    for case in doc['cases']:
+        secs, millis, size, use_ms, form = case[:5]
+        outside = len(case) > 5
         forms.add(form)
         if form == 'none':
             value, expected_int = None, 2 ** (8 * size) - 1
@@ -252,8 +258,10 @@ def _exec_tz(doc, res):
             composed, status = None, type(exc).__name__
         res.event('tz', size, use_ms, form, status, composed.hex() if composed else None)
         res.stats['timestamps.composed'] += 1
-        fits = expected_int < 2 ** (8 * size)
+        fits = 0 <= expected_int < 2 ** (8 * size)
         clause = 'forever-sentinel' if form == 'none' else form.split(':')[0]
+        if outside:
+            res.stats['fault.out_of_range_value'] += 1
         if not fits:
             if status == 'ok':
                 res.violation((PROPERTY, 'timestamp-truncated', size, use_ms), 'a value that does not fit is rejected',
@@ -272,6 +280,8 @@ def _exec_tz(doc, res):
                               zone, local_offset, secs, (EPOCH + datetime.timedelta(seconds=secs)).isoformat(), form, size,
                               use_ms, composed.hex(), expected.hex(), delta))
             continue
+        if outside:
+            continue        # (parse_timestamp masks to 32 bits by design: no parse-back for instants after 2106)
         parser = ParserBinary(composed)
         try:
             parser.parse_timestamp('t', milliseconds=use_ms, item_size=size)
@@ -482,6 +492,24 @@ def _exec_flags(doc, res):
                                                             sorted(m.name for m in want)))
             break
         res.stats['flags.sets_checked'] += 1
+        # a member that does not fit the field (after the shift) is rejected, never silently dropped
+        too_big = [m for m in members if (int(m) >> shift) >= 2 ** (8 * size)]
+        if too_big:
+            composer = ComposerBinary(byte_order=order)
+            oversized = set(rng.sample(usable, min(len(usable), 2))) | {rng.choice(too_big)}
+            try:
+                composer.compose_numeric_flags(oversized, size, shift_right=shift)
+                outcome = 'ok:' + bytes(composer.composed_bytes).hex()
+            except (core.RunTimeout, KeyboardInterrupt, SystemExit):
+                raise
+            except BaseException as exc:  # pylint: disable=broad-except
+                outcome = type(exc).__name__
+            res.stats['fault.out_of_range_value'] += 1
+            if outcome != 'InvalidValue':
+                res.violation((PROPERTY, 'flags-overflow-not-rejected', flag_class.__name__, shift, outcome.split(':')[0]),
+                              'a value that does not fit the width is rejected with an invalid-value error rather than truncated',
+                              '%s into %d bytes (shift %d) -> %s' % (sorted(m.name for m in oversized), size, shift, outcome))
+                break
     res.event('flags', doc['seed'])
     res.sched_sig = ('flags', doc['seed'] % 64)
     res.nontrivial = True
